@@ -95,7 +95,7 @@ Derive(td) ==
   ELSE IF \A k \in DOMAIN td.variants : td.variants[k].command
   THEN \* every variant is a subcommand named after it; its fields form the subcommand's own parser
        LevelOf(<<>>,
-               [kind |-> "cmd", optional |-> FALSE,
+               [kind |-> "cmd", optional |-> FALSE, else_pos |-> <<>>,
                 cmds |-> [k \in DOMAIN td.variants |->
                             LET v == td.variants[k]  fs == FieldSeq(td, v.fields, "c" \o ToString(k)) IN
                             [names |-> <<Kebab(v.chars)>>, shorts |-> <<>>, adjacent |-> FALSE, help |-> v.help,
